@@ -288,13 +288,64 @@ macro_rules! c12_passthrough {
     };
 }
 
+
+/// (Kani) builds a Formatter with SYMBOLIC options on the sink and calls the trait method directly.  `Formatter::new` / `FormattingOptions` are
+/// unstable (feature `formatting_options`, enabled for the Kani toolchain only); calling `<T as Trait>::fmt` directly instead of `write!` also keeps
+/// the impl under test out of the candidate set of CBMC's function-pointer resolution at the `Argument::fmt` calls inside core::fmt::write
+/// (with `write!` the exponent forms, which call `format!` themselves, recurse through that candidate set and never finish).
+/// Options: width None or 0..=16, any ASCII fill, every alignment, `+`, `#`, `0` - all symbolic.
+#[macro_export]
+macro_rules! c12_call {
+    ($TR:path, $T:ty, $x:expr, $sink:expr) => { $crate::c12_call!($TR, $T, $x, $sink, 16) };
+    ($TR:path, $T:ty, $x:expr, $sink:expr, $wmax:expr) => {{
+        let w: u16 = $crate::nd::nd();
+        let has_w: bool = $crate::nd::nd();
+        $crate::nd::assume(w <= $wmax);
+        let fill: u8 = $crate::nd::nd();
+        $crate::nd::assume(fill >= 0x20 && fill < 0x7f);
+        let al: u8 = $crate::nd::nd();
+        $crate::nd::assume(al < 4);
+        let plus: bool = $crate::nd::nd();
+        let alt: bool = $crate::nd::nd();
+        let zero: bool = $crate::nd::nd();
+        let mut o = core::fmt::FormattingOptions::new();
+        o.width(if has_w { Some(w) } else { None });
+        o.fill(fill as char);
+        o.align(match al { 1 => Some(core::fmt::Alignment::Left), 2 => Some(core::fmt::Alignment::Center), 3 => Some(core::fmt::Alignment::Right), _ => None });
+        o.sign(if plus { Some(core::fmt::Sign::Plus) } else { None });
+        o.alternate(alt);
+        o.sign_aware_zero_pad(zero);
+        unsafe { $crate::c12::REC = $crate::c12::Rec::EMPTY; }
+        let res = {
+            let mut f = core::fmt::Formatter::new(&mut $sink, o);
+            <$T as $TR>::fmt(&$x, &mut f)
+        };
+        assert!(res.is_ok(), "formatting into an infallible sink succeeds");
+        let r = unsafe { &*core::ptr::addr_of!($crate::c12::REC) };
+        assert!(r.calls >= 1, "the impl ends in a pad_integral call");
+        assert!(r.width == (if has_w { Some(w as usize) } else { None }) && r.plus == plus && r.alt == alt && r.zero == zero && r.fill == fill as char && r.align == al && r.precision.is_none(),
+                "the caller's Formatter options reach pad_integral unchanged");
+        assert!($sink.count == r.written, "nothing is written to the Formatter except through pad_integral");
+        $crate::reach!(has_w && w == $wmax && plus && alt && zero, "all flags set");
+        $crate::reach!(!has_w && !plus && !alt && !zero && al == 0, "default options");
+        r
+    }};
+}
+/// (native replay) consume the option draws of `c12_call!` so that the recorded values stay aligned
+#[macro_export]
+macro_rules! c12_skip_option_draws {
+    () => {{
+        let _w: u16 = $crate::nd::nd(); let _h: bool = $crate::nd::nd(); let _f: u8 = $crate::nd::nd(); let _a: u8 = $crate::nd::nd();
+        let _p: bool = $crate::nd::nd(); let _al: bool = $crate::nd::nd(); let _z: bool = $crate::nd::nd();
+    }};
+}
+
 /// Binary / LowerHex / UpperHex / Octal: numeral of the BITS-bit two's-complement pattern, by bit slicing.
 /// `$lg` = bits per output digit, `$up` = uppercase, `$pc` = second prefix byte, `$maxlen` = ceil(BITS / lg).
 /// `[$($stub),*]`: the Kani stubs (pad_integral recorder, String::new, the digit formatter of this trait).
 #[macro_export]
 macro_rules! c12_radix {
-    ($name:ident, $unw:expr, $T:ty, $D:ty, $N:expr, $lg:expr, $up:expr, $pc:expr, $maxlen:expr, $k:literal, $spec:literal, $dspec:literal,
-     $W:expr, $P:expr, $A:expr, $Z:expr, $F:expr, $AL:expr, $gen:ident, [$($stub:meta),*]) => {
+    ($name:ident, $unw:expr, $T:ty, $D:ty, $N:expr, $lg:expr, $up:expr, $pc:expr, $maxlen:expr, $k:literal, $TR:path, $gen:ident, [$($stub:meta),*]) => {
         $crate::harness_stub!($name, $unw, [$($stub),*], {
             use $crate::util::*;
             use core::fmt::Write;
@@ -316,11 +367,7 @@ macro_rules! c12_radix {
             #[cfg(kani)]
             {
                 let mut sink = $crate::c12::Null { count: 0 };
-                unsafe { $crate::c12::REC = $crate::c12::Rec::EMPTY; }
-                let res = write!(sink, $spec, x);
-                assert!(res.is_ok(), "formatting into an infallible sink succeeds");
-                let r = unsafe { &*core::ptr::addr_of!($crate::c12::REC) };
-                $crate::c12_passthrough!(r, sink, $W, $P, $A, $Z, $F, $AL);
+                let r = $crate::c12_call!($TR, $T, x, sink);
                 assert!(r.nonneg, "radix forms are never negative (two's-complement pattern)");
                 assert!(r.prefix_len == 2 && r.prefix[0] == b'0' && r.prefix[1] == $pc, "prefix 0b / 0o / 0x");
                 assert!(r.len == len, "numeral length = ceil(bit length / bits per digit), 1 for zero");
@@ -330,14 +377,12 @@ macro_rules! c12_radix {
             }
             #[cfg(not(kani))]
             {
+                $crate::c12_skip_option_draws!();
                 let j: usize = $crate::nd::nd();
-                let text = format!($spec, x);
                 let mut num = String::new();
                 let mut q = 0;
                 while q < len { num.push(digit_at(q) as char); q += 1; }
                 let pre = [b'0', $pc];
-                let want = format!($dspec, $crate::c12::Tr(true, core::str::from_utf8(&pre).unwrap(), &num));
-                assert_eq!(text, want, "bnum text vs oracle triple through the real pad_integral");
                 let pat = if W <= 128 { dval_u128(&xd) } else { 0 };
                 $crate::c12_battery_all!($k, x, $crate::c12::Tr(true, core::str::from_utf8(&pre).unwrap(), &num), W, <$T as BN<$D, $N>>::SIGNED, pat);
             }
@@ -351,8 +396,7 @@ macro_rules! c12_radix {
 /// `$kind`: 0 = Display, 1 = Debug, 2 = LowerExp, 3 = UpperExp (selects how the oracle text is built; `$spec` selects the trait).
 #[macro_export]
 macro_rules! c12_dec {
-    ($name:ident, $unw:expr, $T:ty, $D:ty, $N:expr, $ND:expr, $kind:expr, $k:literal, $spec:literal, $dspec:literal,
-     $W:expr, $P:expr, $A:expr, $Z:expr, $F:expr, $AL:expr, [$($stub:meta),*]) => {
+    ($name:ident, $unw:expr, $T:ty, $D:ty, $N:expr, $ND:expr, $kind:expr, $k:literal, $TR:path, [$($stub:meta),*]) => {
         $crate::harness_stub!($name, $unw, [$($stub),*], {
             use $crate::util::*;
             use core::fmt::Write;
@@ -405,11 +449,7 @@ macro_rules! c12_dec {
             #[cfg(kani)]
             {
                 let mut sink = $crate::c12::Null { count: 0 };
-                unsafe { $crate::c12::REC = $crate::c12::Rec::EMPTY; }
-                let res = write!(sink, $spec, x);
-                assert!(res.is_ok(), "formatting into an infallible sink succeeds");
-                let r = unsafe { &*core::ptr::addr_of!($crate::c12::REC) };
-                $crate::c12_passthrough!(r, sink, $W, $P, $A, $Z, $F, $AL);
+                let r = if $kind < 2 { $crate::c12_call!($TR, $T, x, sink) } else { $crate::c12_call!($TR, $T, x, sink, 4) };
                 assert!(r.nonneg == !neg, "sign flag = value is not negative");
                 assert!(r.prefix_len == 0, "decimal forms have no prefix");
                 assert!(r.len == wl, "numeral length");
@@ -419,10 +459,8 @@ macro_rules! c12_dec {
             }
             #[cfg(not(kani))]
             {
+                $crate::c12_skip_option_draws!();
                 let j: usize = $crate::nd::nd();
-                let text = format!($spec, x);
-                let wt = format!($dspec, $crate::c12::Tr(!neg, "", core::str::from_utf8(&want[..wl]).unwrap()));
-                assert_eq!(text, wt, "bnum text vs oracle triple through the real pad_integral");
                 $crate::c12_battery_all!($k, x, $crate::c12::Tr(!neg, "", core::str::from_utf8(&want[..wl]).unwrap()), W, S, dval_u128(&xd));
             }
             $crate::reach!(neg == S, "negative value (signed) / any value (unsigned)");
